@@ -213,7 +213,7 @@ Theorem error_frame n fn ok gs gr code arg σ out σ' :
   forall x, x <> NGlobal gs -> x <> NGlobal gr -> is_group x = false -> read σ' x = read σ x.
 Proof.
   intros W Hc Ha H. destruct n as [|n]; [discriminate|]. simpl in H.
-  destruct (negb fn && negb ok); [discriminate|].
+  destruct (negb ok); [discriminate|].
   bind_inv H as σ1 H1. bind_inv H as σ2 H2. inversion H; subst. split; auto.
   destruct (all_good Os P n) as (Ge & _ & _).
   assert (K : forall (oe : option expr) g σa σb, wf σa -> (forall e, oe = Some e -> pure e = true) ->
@@ -244,7 +244,7 @@ Theorem restart_frame n fn ok σ out σ' :
   exec repaired Os P n fn (SRestart ok) σ = OK (out, σ') -> out = OState st_restart /\ σ' = σ.
 Proof.
   intros H. destruct n as [|n]; [discriminate|]. simpl in H.
-  destruct (fn || ok); inversion H; auto.
+  destruct ok; inversion H; auto.
 Qed.
 
 (* unset of a header or of a sub-field: the same frame *)
